@@ -182,7 +182,7 @@ def run(ck, facts, tier):
                 ck.ok(R, "overlap-error-is-final", "the error is returned from the loop at once")
     dj = need_body(ck, facts, R, CS + "disjoint")
     if dj:
-        ms = [m for m in walk(dj.thir) if m.get("k") == "match" and "Option<chalk_solve::solve::Solution" in m.get("sty", "")]
+        ms = [m for m in walk(facts.thir(dj.key)) if m.get("k") == "match" and "Option<chalk_solve::solve::Solution" in m.get("sty", "")]
         ok = False
         if len(ms) == 1:
             res = {}
